@@ -21,6 +21,7 @@ Inductive pyval :=
 | PBool (o : Z) (x : slc)           (* LinCombBool: wrapper identity, .lc *)
 | PFxp (o : Z) (x : slc)            (* LinCombFxp *)
 | PList (l : list pyval) | PTuple (l : list pyval)
+| PArr (row : bool) (l : list pyval)      (* pysnark.array.Array (row = an ArrayRow returned by a secret-index read) *)
 | PNone | PNotImpl.
 
 Inductive bop := OAdd | OSub | OMul | OTrueDiv | OFloorDiv | OMod | ODivmod | OPow | OLshift | ORshift
@@ -143,7 +144,7 @@ Definition truthy (o : pyval) : G Z :=
   | PList l | PTuple l => ret (match l with [] => 0 | _ => 1 end)
   | PNone => ret 0
   | PNotImpl => ret 1
-  | PLC _ | PBool _ _ => ret 1
+  | PLC _ | PBool _ _ | PArr _ _ => ret 1
   end.
 (* LinCombBool(lc, False): the value check of the constructor is unconditional *)
 Definition mkbool (x : slc) : G pyval := raise_if (BNot (is_boolv (sval x))) ValueError ;;; ret (PBool 0 x).
@@ -269,9 +270,25 @@ Definition fxp_rdunder (op : bop) (f : slc) (o : pyval) : G pyval :=
   | _ => NI
   end.
 
+(* ---- pysnark.array.Array: elementwise +, -, * (the element operations go through the dispatcher) ---- *)
+Definition arr_dunder (op : bop) (l : list pyval) (o : pyval) : G pyval :=
+  match op, o with
+  | OSub, PArr _ m => r <- zipM (rec OSub) l m ;; ret (PArr false r)
+  | OAdd, PArr _ m => r <- zipM (rec OAdd) l m ;; ret (PArr false r)
+  | OAdd, (PInt _ | PLC _) => r <- mapM (fun sv => rec OAdd sv o) l ;; ret (PArr false r)
+  | OMul, (PInt _ | PLC _) => r <- mapM (fun sv => rec OMul o sv) l ;; ret (PArr false r)      (* __mul__ = __rmul__: other * sv *)
+  | (OSub | OAdd | OMul), _ => NI
+  | _, _ => static_raise TypeError                    (* Array defines no other operator *)
+  end.
+Definition arr_rdunder (op : bop) (l : list pyval) (o : pyval) : G pyval :=
+  match op with
+  | OAdd | OMul => arr_dunder op l o
+  | _ => NI
+  end.
+
 Definition same_class (a b : pyval) : bool :=
   match a, b with
-  | PLC _, PLC _ | PBool _ _, PBool _ _ | PFxp _ _, PFxp _ _ => true
+  | PLC _, PLC _ | PBool _ _, PBool _ _ | PFxp _ _, PFxp _ _ | PArr _ _, PArr _ _ => true
   | _, _ => false
   end.
 Definition is_cmp (op : bop) : bool := match op with OLt | OLe | OEq | ONe | OGt | OGe => true | _ => false end.
@@ -279,10 +296,14 @@ Definition is_cmp (op : bop) : bool := match op with OLt | OLe | OEq | ONe | OGt
 (* Python's binary operator protocol for the classes modelled *)
 Definition dispatch (op : bop) (a b : pyval) : G pyval :=
   r <- match a with
+       | PInt x => match b, op with                       (* plain Python ints (only what library code itself computes on ints) *)
+                   | PInt y, OAdd => ret (PInt (x + y)) | PInt y, OSub => ret (PInt (x - y)) | PInt y, OMul => ret (PInt (x * y))
+                   | _, _ => NI end
        | PLC x => lc_dunder op x b
        | PBool _ x => bool_dunder op x b
        | PFxp _ x => fxp_dunder' op x a b
-       | PInt _ | PFloat _ _ => NI        (* int/float methods do not know the pysnark classes *)
+       | PArr _ l => arr_dunder op l b
+       | PFloat _ _ => NI                 (* int/float methods do not know the pysnark classes *)
        | _ => static_raise TypeError
        end ;;
   match r with
@@ -292,6 +313,7 @@ Definition dispatch (op : bop) (a b : pyval) : G pyval :=
             | PLC y => lc_rdunder op y a
             | PBool _ y => bool_rdunder op y a
             | PFxp _ y => fxp_rdunder op y a
+            | PArr _ m => arr_rdunder op m a
             | _ => NI
             end ;;
       match r2 with
